@@ -1,5 +1,8 @@
 import RulioProofs.StateBasic
 
+set_option linter.unusedSimpArgs false
+set_option linter.unusedVariables false
+
 /-! # Term-index lemmas: `TI.add`, `TI.rem`, `TI.search` -/
 
 /-- `id` is listed under term `t` -/
@@ -22,10 +25,10 @@ theorem TI.has_rem_of_ne {ti : TI} {t t' id y : String} (hy : y ≠ id) (h : TI.
         | nil => rw [hh] at hme; simp at hme
         | cons a b => rfl
       rw [if_neg (by simp [hne])]
-      exact ⟨ids.erase id, by rw [amGet_amSet]; simp, hme⟩
+      exact ⟨ids.erase id, by rw [amGet_amSet_st]; simp, hme⟩
     · split
-      · exact ⟨ids, by rw [amGet_amErase]; simp [htt, hg], hm⟩
-      · exact ⟨ids, by rw [amGet_amSet]; simp [htt, hg], hm⟩
+      · exact ⟨ids, by rw [amGet_amErase_st]; simp [htt, hg], hm⟩
+      · exact ⟨ids, by rw [amGet_amSet_st]; simp [htt, hg], hm⟩
 
 theorem TI.has_foldl_rem_of_ne {terms : List String} {ti : TI} {t' id y : String} (hy : y ≠ id)
     (h : TI.has ti t' y) : TI.has (terms.foldl (fun ti t => TI.rem ti t id) ti) t' y := by
@@ -81,7 +84,7 @@ theorem TI.has_add_self (ti : TI) (t id : String) : TI.has (TI.add ti t id) t id
     simp only
     have hnone : t ∉ ti.map (·.1) := amGet_none_iff.1 hget
     refine ⟨[id], ?_, by simp⟩
-    have h := amGet_amSet ti t t [id]
+    have h := amGet_amSet_st ti t t [id]
     simp only [amSet] at h
     have hany : ¬ (ti.any (fun p => p.1 == t)) = true := by
       intro hh
@@ -92,7 +95,7 @@ theorem TI.has_add_self (ti : TI) (t id : String) : TI.has (TI.add ti t id) t id
     simpa using h
   | some ids =>
     simp only
-    refine ⟨_, by rw [amGet_amSet, if_pos rfl], ?_⟩
+    refine ⟨_, by rw [amGet_amSet_st, if_pos rfl], ?_⟩
     split
     · rename_i hc; simpa using hc
     · simp
@@ -105,7 +108,7 @@ theorem TI.has_add_of_has {ti : TI} {t t' id y : String} (h : TI.has ti t' y) : 
     simp only
     have hnone : t ∉ ti.map (·.1) := amGet_none_iff.1 hget
     refine ⟨ids, ?_, hm⟩
-    have h := amGet_amSet ti t t' [id]
+    have h := amGet_amSet_st ti t t' [id]
     simp only [amSet] at h
     have hany : ¬ (ti.any (fun p => p.1 == t)) = true := by
       intro hh
@@ -120,11 +123,11 @@ theorem TI.has_add_of_has {ti : TI} {t t' id y : String} (h : TI.has ti t' y) : 
     by_cases htt : t' = t
     · subst htt
       rw [hg] at hget; injection hget with hget; subst hget
-      refine ⟨_, by rw [amGet_amSet, if_pos rfl], ?_⟩
+      refine ⟨_, by rw [amGet_amSet_st, if_pos rfl], ?_⟩
       split
       · exact hm
       · exact List.mem_append_left _ hm
-    · exact ⟨ids, by rw [amGet_amSet]; simp [htt, hg], hm⟩
+    · exact ⟨ids, by rw [amGet_amSet_st]; simp [htt, hg], hm⟩
 
 theorem TI.has_foldl_add_of_has {terms : List String} {ti : TI} {t' id y : String} (h : TI.has ti t' y) :
     TI.has (terms.foldl (fun ti t => TI.add ti t id) ti) t' y := by
